@@ -275,7 +275,7 @@ def oracle_C01(run):
                 cause = 'validation-disabled'
             elif 'setting-id-masked' in (X['taint'].get(0, set())) and cls == 'InvalidSettingsValueError':
                 cause = 'setting-id-masked'
-            elif in_flight >= 2 and has_ack and setting_dependent:
+            elif ((in_flight >= 2 and has_ack) or Y.get('applied_early')) and setting_dependent:
                 cause = 'ack-not-matched-to-its-frame'
             elif 'data-before-final-headers' in causes:
                 cause = 'data-before-final-headers'
@@ -342,7 +342,13 @@ def oracle_C01(run):
                     out.append(fail('stream-ended-without-a-send', i, sid=sid))
                     return out
             elif nm == 'SettingsAcknowledged':
+                if len(Y['S']['settings']) - Y['acks'] >= 2:
+                    # D8: this ACK answers the oldest of several frames in flight and the library applies them all: from
+                    # here on the receiver enforces values the peer has not seen yet
+                    Y['applied_early'] = True
                 Y['acks'] += 1
+                if Y['acks'] >= len(Y['S']['settings']):
+                    Y['applied_early'] = False       # everything acknowledged: the peer knows all of it now
             elif nm == 'PriorityUpdated':
                 # priority information comes through as sent: (weight, depends_on, exclusive), in order per stream
                 # (a HEADERS frame for a stream the receiver has reset is dropped with its priority fields: subsequence)
